@@ -246,6 +246,7 @@ def getXOp (j : Json) : Except String (XOp Int) := do
   | "take" => pure (.take (← i) (← getCnt (← field j "n")))
   | "peek" => pure (.peek (← i) (← getCnt (← field j "n")))
   | "skip" => pure (.skip (← i) (← getNat (← field j "n")))
+  | "skipc" => pure (xskipOf (← i) (← getCnt (← field j "n")))      -- any count, refused ones included
   | "limit" => pure (.limit (← i) (← getNat (← field j "n")))
   | "append" => pure (.append (← i) (← getList getEv (← field j "es")))
   | "map" => pure (.map (← i) (mapXT (← getNat (← field j "f"))))
